@@ -10,9 +10,7 @@
      <comment> = <pos>~<hex text>
      <err>     = <pos>:unclosed:-   |   <pos>:unrec:<hex text>
    (hex of the empty string is "-").
-
-   Only names that no other model defines are used from Mdl, so the flat
-   extraction's renaming of clashing identifiers cannot change what runs here. *)
+ *)
 open Mdl
 open Driver_core
 
